@@ -275,6 +275,10 @@ class Run:
         """Record one failing case under a signature (first = smallest kept)."""
         for i, k in enumerate(self._known):
             if k.get("status") == "open" and sig in k["signatures"]:
+                # an entry may be narrowed to the input families it was seen on:
+                # the same signature on another family is a different violation
+                if "families" in k and not (isinstance(case, dict) and case.get("family") in k["families"]):
+                    continue
                 self.known_hits[i] = self.known_hits.get(i, 0) + 1
                 return
         if sig in self.viol:
